@@ -492,15 +492,10 @@ func (fc *funcContext) translateExpr(expr ast.Expr) *expression {
 				// Should never happen in type-checked code.
 				panic(fmt.Errorf("non-array pointers can't be used with index expression"))
 			}
-			// Rewrite arrPtr[i] → (*arrPtr)[i] to concentrate array dereferencing
-			// logic in one place.
-			x := &ast.StarExpr{
-				Star: e.X.Pos(),
-				X:    e.X,
-			}
-			astutil.SetType(fc.pkgCtx.Info.Info, t.Elem(), x)
-			e.X = x
-			return fc.translateExpr(e)
+			// A pointer to an array is represented by the array itself; check the
+			// pointer for nil first (attribute getter causes a panic).
+			pattern := rangeCheck("%1e[%2f]", fc.pkgCtx.Types[e.Index].Value != nil, true)
+			return fc.formatExpr("(%1e.nilCheck, "+pattern+")", e.X, e.Index)
 		case *types.Array:
 			pattern := rangeCheck("%1e[%2f]", fc.pkgCtx.Types[e.Index].Value != nil, true)
 			return fc.formatExpr(pattern, e.X, e.Index)
